@@ -452,7 +452,10 @@ class RenderContext:
             ctx = self.__class__(
                 template or self.template,
                 globals=ReadOnlyChainMap(namespace, self.scope),
-                disabled_tags=disabled_tags,
+                # A block is still part of the template it is rendered in.
+                disabled_tags=(
+                    disabled_tags if disabled_tags is not None else self.disabled_tags
+                ),
                 copy_depth=self._copy_depth + 1,
                 parent_context=self,
                 loop_iteration_carry=loop_iteration_carry,
